@@ -161,6 +161,11 @@ pub fn inputs_c03(r: &mut Rng, n: usize, _tier: &str, out: &mut dyn Write) {
             0 | 1 | 2 => writeln!(out, "eq {} {}", dstr(a), dstr(b)).unwrap(),
             3 | 4 => writeln!(out, "cmp {} {}", dstr(a), dstr(b)).unwrap(),
             5 => {
+                if r.chance(1, 4) {
+                    // "negative < zero < positive": is_negative against the signed count
+                    writeln!(out, "isneg {}", dstr(*r.pick(&[a, b, -a, 0, 1, -1]))).unwrap();
+                    continue;
+                }
                 let op = *r.pick(&["lt", "le", "gt", "ge", "ne"]);
                 writeln!(out, "{} {} {}", op, dstr(a), dstr(b)).unwrap()
             }
@@ -268,6 +273,7 @@ pub fn exec(op: &str, a: &[&str]) -> Option<String> {
         "divi" => okd(s2d(a[0]) / a[1].parse::<i64>().unwrap()),
         "addu" => okd(s2d(a[0]) + s2u(a[1])),
         "subu" => okd(s2d(a[0]) - s2u(a[1])),
+        "isneg" => Some(format!("ok {}", s2d(a[0]).is_negative() as u8)),
         "addassign_u" => {
             let mut d = s2d(a[0]);
             d += s2u(a[1]);
